@@ -235,6 +235,8 @@ def close1(got, exp):
         g = float(got)
     except ValueError:
         return False
+    if abs(exp) >= 1e6 and exp == int(exp):
+        return got.strip() == str(int(exp))       # a whole number is written as it is, however large
     return abs(g - exp) <= 0.0015 + 2e-5 * abs(exp)
 
 
@@ -292,6 +294,8 @@ def run(rep, tier, seed):
             key = g["tree"]["v"] if g["tree"]["op"] == "call" else "-"
             if '"/", "0"' in json.dumps([t for t in g["toks"]]) or any(a == "/" and b == "0" for a, b in zip(g["toks"], g["toks"][1:])):
                 key = "special:" + key      # division by zero: inf / NaN operands
+            if any(t in ("65536", "0.0004", "3000") for t in g["toks"]):
+                key = "edge:" + key         # 32-bit boundary, values below the printed precision
             by.setdefault(key, []).append(g)
         per = max(60, (limit // 2) // max(1, len(by) - 1))
         sel = []
@@ -360,8 +364,11 @@ def run(rep, tier, seed):
     scal = [c for c in cases if scalar(c["exp"]) and not has_special(c["exp"])]
     dsel = rnd.sample(scal, min(len(scal), 4000 if big else 800))
     dcases = []
-    for j, c in enumerate(dsel):
-        ci = j % len(ctxs)
+    pairs = [(c, j % len(ctxs)) for j, c in enumerate(dsel)]
+    # values at the 32-bit boundary and below the printed precision: in every context
+    edge = [c for c in scal if any(t in ("65536", "0.0004", "3000") for t in c["txt"].replace("(", " ").replace(")", " ").replace(",", " ").split())]
+    pairs += [(c, ci) for c in edge for ci in (0, 1, 3, 7) if not (ci != 7 and abs(c["exp"][0]) < 0.001 and c["exp"][0] != 0)]
+    for j, (c, ci) in enumerate(pairs):
         xml = ctxs[ci](vlib_escape(c["txt"])).replace("{a}", c["env"]["a"]).replace("{b}", c["env"]["b"])
         dcases.append({"k": f"c14d-{j}", "xml": xml, "cfg": {}, "c": c, "ctx": ci})
     dres = vlib.run_cases([{"k": d["k"], "xml": d["xml"], "cfg": d["cfg"]} for d in dcases])
@@ -423,6 +430,9 @@ def run(rep, tier, seed):
         txt = text_of(b["toks"], random.Random(rnd.random()))
         xml = f'<svg><var a="4" b="3"/><rect id="s" wh="2" data-v="{{{{{vlib_escape(txt)}}}}}"/></svg>'
         bcases.append({"k": f"c14b-{j}", "xml": xml, "cfg": {}, "b": b, "txt": txt})
+    for j, e in enumerate(["random(1)", "random(1, 2)", "random(,)", "randint()", "randint(1)", "randint(1, 2, 3)"]):
+        bcases.append({"k": f"c14b-rnd{j}", "xml": f'<svg><rect id="s" wh="2" data-v="{{{{{e}}}}}"/></svg>', "cfg": {},
+                       "b": {"kind": "arity"}, "txt": e})
     bcases.append({"k": "c14b-circ", "xml": '<svg><var p="$q"/><var q="$p"/><rect wh="2" data-v="{{$p + 1}}"/></svg>', "cfg": {},
                    "b": {"kind": "circular-variable"}, "txt": "$p + 1 with p=$q, q=$p"})
     bres = vlib.run_cases([{"k": b["k"], "xml": b["xml"], "cfg": b["cfg"]} for b in bcases])
